@@ -1,5 +1,5 @@
 """C08: check configuration (PROP) and MANIFEST texts (TEXT)."""
-PROP = {'n_quick': 40,
+PROP = {'tables': ['C14'], 'n_quick': 40,
  'n_thorough': 400,
  'audit': 6,
  'audit_maxlen': 9000,
